@@ -25,6 +25,7 @@ os.chdir(HERE)
 
 REPLAY_PY = os.environ.get("PYVC_REPLAY_PYTHON", "/venv/bin/python")
 REPO = os.environ.get("PYVC_REPO", "/repo")
+REPLAY_ROOT = os.environ.get("PYVC_REPLAY_DIR") or os.path.join(os.path.dirname(os.path.dirname(os.path.abspath(__file__))), "replay")
 
 
 def load_contracts(prop):
@@ -149,6 +150,8 @@ def _conc_worker(args):
         for name, good, detail in results:
             if not good and len(failures) < 20:
                 failures.append(dict(obligation=name, inputs=core._jsonable(inputs), detail=detail))
+        if any(name.endswith("/terminates") and not good for name, good, _ in results):
+            break               # one non-terminating evaluation is enough; do not wait for the rest of the family
     return dict(proof=pname, evaluated=ok, generated=n, skipped=skipped, ticks=ticks, distinct=sorted(distinct),
                 failures=failures, sample=sample, errors=errors[:3], wall_s=time.time() - t0)
 
@@ -166,7 +169,7 @@ def run_replay_file(path):
 
 
 def write_replay(prop, pname, obligation, inputs, extra):
-    d = os.path.join(HERE, "replay", prop)
+    d = os.path.join(REPLAY_ROOT, prop)
     os.makedirs(d, exist_ok=True)
     safe = obligation.replace("/", "__").replace(" ", "_")[:150]
     path = os.path.join(d, safe + ".json")
@@ -235,7 +238,7 @@ def main(argv):
     ledger = set(ledger_doc.get("discharged_" + tier, []))
 
     # stale replay files of earlier runs must not be mistaken for this run's
-    for f in glob.glob(os.path.join(HERE, "replay", prop, "*.json")):
+    for f in glob.glob(os.path.join(REPLAY_ROOT, prop, "*.json")):
         os.remove(f)
 
     ctx = mp.get_context("fork")
